@@ -57,5 +57,6 @@ def run(chk):
     chk.exhaustive = True
     chk.queue([fmtprogs.fmt_program(rng) for _ in range(8000 if thorough else 2000)], 'random-format')
     chk.queue([fmtprogs.fmt_program(rng, lsb0=True) for _ in range(2000 if thorough else 400)], 'random-format-lsb0')
+    chk.queue([fmtprogs.struct_program(rng) for _ in range(1500 if thorough else 400)], 'random-struct-tokens')
     chk.flush()
     return chk.finish(rule=RULE, assumptions=ASSUME + ['the format renderer only applies meaning-preserving spellings'])
